@@ -48,7 +48,8 @@ def steered(r, accts, kinds=None):
     base = 3 + r.below(5)
     prefix = [att_op(name(x), 1, base, 0) for x in (a, b, c)] + [prop_op(name(a), base, 0)]
     kind = r.weighted([("single-pair", 4), ("batch-vs-single", 5), ("opposite-batches", 4), ("prop-pair", 3), ("mixed", 5),
-                       ("batch-vs-batch-overlap", 4), ("deadline-rollback-att", 3), ("deadline-rollback-prop", 3), ("near-identical-singles", 9)])
+                       ("batch-vs-batch-overlap", 4), ("deadline-rollback-att", 3), ("deadline-rollback-prop", 3), ("near-identical-singles", 9),
+                       ("refused-entry-vs-single", 5)])
     if kinds:
         kind = r.choice(kinds)
     t = base + 1 + r.below(3)
@@ -95,6 +96,18 @@ def steered(r, accts, kinds=None):
             roots[which] = q
             cops.append((q * 3, att_op3(r.choice([name(a), key(a)]), 1, t, roots[0], roots[1], roots[2])))
         parks = "%s:%d" % (a.pk.hex()[:16], park_ms)
+    elif kind == "refused-entry-vs-single":
+        # a batch in which key a's entry is refused WITHOUT looking at its record (target below source / not an attester
+        # domain / epoch beyond int64) beside an entry that advances, while single requests for a repeat the target the
+        # prefix signed, with other roots: whatever the batch writes back for its refused entry, those stay refused
+        bad = r.choice([att_item(name(a), t + 2, t + 1, 1), att_item(key(a), hist.TWO63 + 1, hist.TWO63 + 2, 1),
+                        att_item(name(a), 1, t, 1).replace((DOM_ATT + bytes(28)).hex(), (bytes([7, 0, 0, 0]) + bytes(28)).hex(), 1)])
+        items = [bad, att_item(name(b), 1, t, 1)]
+        if r.chance(0.5):
+            items.reverse()
+        cops = [(0, atts_op(items)), (6 + r.below(6), att_op(r.choice([name(a), key(a)]), 1, base, 2)), (70 + r.below(30), att_op(key(a), 1, base, 3)),
+                (75 + r.below(30), att_op(name(a), 0, base + 1, 3))]
+        parks = "%s:%d" % (r.choice([a, b]).pk.hex()[:16], park_ms)
     elif kind == "prop-pair":
         s = base + 1
         cops = [(0, prop_op(name(a), s, 1)), (4, prop_op(key(a), s, 2)), (4, prop_op(name(a), s + 1, 3))]
